@@ -532,6 +532,11 @@ class PyFunc:
         return f"<pyfunc {self.name}>"
 
 
+def tensorlib_obj():
+    """ONE stand-in for the tensor backend of an interpreted world: what code keys on it (name, precision) stays equal."""
+    return Obj("tensorlib", {"name": "numpy", "precision": "64b"})
+
+
 class Closure:
     def __init__(self, node, interp):
         self.node = node
@@ -956,6 +961,8 @@ class Interp:
                     basev = self.eval(e.value)
                 except Undecided:
                     basev = None
+                if basev is MODULE and e.attr in ("name", "precision"):
+                    return "numpy" if e.attr == "name" else "64b"  # the backend in force during an interpreted scenario
                 if isinstance(basev, Obj):
                     if e.attr in basev.attrs:
                         return basev.attrs[e.attr]
